@@ -4,6 +4,7 @@ from __future__ import annotations
 import ast
 
 from ..raises import Esc, MayRaise
+from ..anchors import is_incomplete
 from ..readerrules import NOT_ENOUGH, lemma_identity_before_completeness, lemma_no_consume_on_failure, stream_reader_uses
 from ..report import Finding, Run
 from ..session import SESSION_MOD
@@ -23,7 +24,7 @@ def wait_handlers(model: Model, fi):
                     continue
                 names = h.type.elts if isinstance(h.type, ast.Tuple) else [h.type]
                 qs = [model.resolve_name(fi.module, norm(n)) or norm(n) for n in names]
-                if NOT_ENOUGH in qs or any(q in ("Exception", "BaseException") for q in qs):
+                if any(is_incomplete(model, q_) for q_ in qs) or any(q in ("Exception", "BaseException") for q in qs):
                     reraises = any(isinstance(x, ast.Raise) for s in h.body for x in ast.walk(s))
                     if not reraises:
                         out.append((t, h))
@@ -56,7 +57,7 @@ def check(model: Model, run: Run) -> None:
         escs = mr.block(t.body, ctx)
         mr.fixpoint()
         escs = mr.block(t.body, ctx)
-        ne = [e for e in escs if e.exc == NOT_ENOUGH]
+        ne = [e for e in escs if is_incomplete(model, e.exc)]
         total += len(ne)
         bad = [e for e in ne if e.prov not in good_provs]
         for e in ne:
@@ -103,7 +104,7 @@ def check(model: Model, run: Run) -> None:
                             if isinstance(tg, ast.Name):
                                 locals2.add(tg.id)
             ctx2 = {"fi": f2, "self_cls": None, "key": (fq, None), "caught": frozenset(), "handler_var": None}
-            escs2 = [e for e in mr.block(t2.body, ctx2) if e.exc == NOT_ENOUGH]
+            escs2 = [e for e in mr.block(t2.body, ctx2) if is_incomplete(model, e.exc)]
             def fresh_ok(pv: str) -> bool:
                 return pv.startswith("fresh:") and (pv[6:].startswith("self._incoming") or pv[6:] in f2.params())
             bad2 = [e for e in escs2 if not ((e.prov.startswith("local:") and e.prov[6:] in locals2) or fresh_ok(e.prov))]
